@@ -64,6 +64,36 @@ static void RN(check_failed) (T *t, RT *r, const char *what)
     RF(init) (&tmp);
     if (RF(union) (&tmp, r, &one)) V (t, "c15-broken-not-propagated", "%s: union(tmp, BROKEN, rect) returned TRUE", what);
     snprintf (w2, sizeof w2, "%s/union-of-broken", what); RN(looks_broken) (t, &tmp, w2); RF(fini) (&tmp);
+    /* ... whatever the other operand looks like: a broken region has the extents (0,0,0,0), so partners that touch or contain the
+     * origin, and both operand orders, are the interesting ones for every extents-based shortcut */
+    {
+        static const int part[5][4] = { { 0, 0, 5, 5 }, { -3, -3, 8, 8 }, { -4, -4, 4, 4 }, { 0, 0, 1, 1 }, { -1, 0, 2, 1 } };      /* x, y, w, h */
+        for (int k = 0; k < 6; k++) {
+            RT p; 
+            if (k < 5) RF(init_rect) (&p, part[k][0], part[k][1], (unsigned) part[k][2], (unsigned) part[k][3]);
+            else { BT two[2] = { { -2, -2, 2, 0 }, { -1, 0, 3, 3 } }; RF(init_rects) (&p, two, 2); }
+            for (int order = 0; order < 3; order++) {
+                RT cp; RF(init) (&cp); RF(copy) (&cp, r);                 /* a second broken region (copy of broken is broken: checked below) */
+                RF(init) (&tmp);
+                int ret = order == 0 ? RF(union) (&tmp, &cp, &p) : order == 1 ? RF(union) (&tmp, &p, &cp) : RF(union) (&cp, &cp, &p);
+                RT *res = order == 2 ? &cp : &tmp;
+                if (ret) V (t, "c15-broken-not-propagated", "%s: union(%s) with partner #%d (%s the origin) returned TRUE", what, order == 0 ? "tmp, BROKEN, partner" : order == 1 ? "tmp, partner, BROKEN" : "BROKEN, BROKEN, partner (in place)", k, k < 5 ? "a rectangle touching" : "two rectangles around");
+                snprintf (w2, sizeof w2, "%s/union-with-origin-partner-%d-%d", what, k, order); RN(looks_broken) (t, res, w2);
+                RF(fini) (&tmp); RF(fini) (&cp);
+            }
+            if (k < 5) {
+                RT cp; RF(init) (&cp); RF(copy) (&cp, r);
+                int ret = RF(union_rect) (&cp, &cp, part[k][0], part[k][1], (unsigned) part[k][2], (unsigned) part[k][3]);
+                if (ret) V (t, "c15-broken-not-propagated", "%s: union_rect(BROKEN, BROKEN, %d,%d %dx%d) returned TRUE", what, part[k][0], part[k][1], part[k][2], part[k][3]);
+                snprintf (w2, sizeof w2, "%s/union_rect-at-origin-%d", what, k); RN(looks_broken) (t, &cp, w2); RF(fini) (&cp);
+                RF(init) (&cp); RF(copy) (&cp, r); RF(init) (&tmp);
+                ret = RF(intersect_rect) (&tmp, &cp, part[k][0], part[k][1], (unsigned) part[k][2], (unsigned) part[k][3]);
+                if (ret) V (t, "c15-broken-not-propagated", "%s: intersect_rect(tmp, BROKEN, %d,%d %dx%d) returned TRUE", what, part[k][0], part[k][1], part[k][2], part[k][3]);
+                snprintf (w2, sizeof w2, "%s/intersect_rect-at-origin-%d", what, k); RN(looks_broken) (t, &tmp, w2); RF(fini) (&tmp); RF(fini) (&cp);
+            }
+            RF(fini) (&p);
+        }
+    }
     RF(init_rect) (&tmp, 0, 0, 3, 3);
     if (RF(intersect) (&tmp, &one, r)) V (t, "c15-broken-not-propagated", "%s: intersect(tmp, rect, BROKEN) returned TRUE", what);
     snprintf (w2, sizeof w2, "%s/intersect-with-broken", what); RN(looks_broken) (t, &tmp, w2); RF(fini) (&tmp);
